@@ -225,9 +225,7 @@ func RunC18(tier string) int {
 				return
 			}
 		}
-		if i < 2 {
-			run.Sample(map[string]any{"placement": placement, "signal": sig, "exit": res.Exit, "wall_ms": wall.Milliseconds(), "trace": obs.Order})
-		}
+		run.Sample(map[string]any{"placement": placement, "signal": sig, "exit": res.Exit, "wall_ms": wall.Milliseconds(), "trace": obs.Order})
 	})
 	// same-command second scenario: the interrupted target must be re-executed by an identical follow-up build
 	e1.Parallel(tierN(tier, 12, 120), func(i int) {
